@@ -178,7 +178,7 @@ var c07DirShapes = map[string]c07Shape{
 	"secresponsebodyaccess":          c07OnOff,
 	"secrxprefilter":                 c07OnOff,
 	"secrequestbodyinmemorylimit":    c07Num,
-	"secrequestbodyjsondepthlimit":   {valid: []string{"1024", "1", "2", "5", "100000"}, odd: []string{"", "0", "-1", "x"}},
+	"secrequestbodyjsondepthlimit":   {valid: []string{"1024", "1", "2", "5", "4000"}, odd: []string{"", "0", "-1", "x"}},
 	"secrequestbodylimit":            {valid: []string{"13107200", "1", "7", "64", "1000", "1073741824"}, odd: []string{"", "0", "-1", "x", "1073741825", "9223372036854775807", "99999999999999999999"}},
 	"secrequestbodynofileslimit":     c07Num,
 	"secresponsebodylimit":           {valid: []string{"524288", "1", "7", "64", "1000", "1073741824"}, odd: []string{"", "0", "-1", "x", "1073741825", "9223372036854775807"}},
@@ -389,8 +389,8 @@ func (c *c07Cfg) randTargets(n int) string {
 		default:
 			kind = 3
 		}
-		if (v == "XML" || v == "JSON" || v == "REQUEST_XML" || v == "RESPONSE_XML") && c.chance(0.5) {
-			kind = 4
+		if (v == "XML" || v == "JSON") && c.chance(0.5) {
+			kind = 4 // XPath syntax exists for these two names only; elsewhere "//" would be an empty regex key
 		}
 		sel := c07Selectable[v] || c.chance(0.03)
 		if !sel {
@@ -450,6 +450,11 @@ func (c *c07Cfg) opText(name string, odd bool, serial int) (string, []string) {
 		if sh.dataset != "" {
 			c.needDataset(sh.dataset)
 		}
+	}
+	if name == "pm" && strings.TrimSpace(arg) == "" && !strings.HasPrefix(c.origin, "operator") {
+		// the empty phrase list is swept on its own; combined with an empty regex (@restpath with no
+		// argument, VAR://) it would hit the shared-cache-key defect that belongs to C13
+		arg = "pw#"
 	}
 	arg = strings.ReplaceAll(arg, "#", fmt.Sprint(serial))
 	c.used[c07Op][name] = true
